@@ -18,7 +18,7 @@ RULE = ("Hypothesis generates heterogeneous lattices (1-3 orbitals, 1-3 spins pe
 ASSUMPTIONS = ["the transcription of the Doxygen formulas in DOC below", "addCoulombP's Level parameter adds eps*n like addCoulombS (parameter doc)",
                "addMagnetization is compared with the documented mH/2 (n_up-n_dn); the factor-2 discrepancy is the recorded known finding"]
 CONFIG = {
-    "quick": {"flavours": ["real", "complex"], "shards": 8, "examples": 200, "min_nontrivial": 300, "budget_s": 100},
+    "quick": {"flavours": ["real", "complex"], "shards": 8, "examples": 1000, "min_nontrivial": 300, "budget_s": 120},
     "thorough": {"flavours": ["real", "complex"], "shards": 16, "examples": 3000, "min_nontrivial": 5000, "budget_s": 3000},
 }
 REQUIRED_CLASSES = {"quick": ["preset:coulombP4", "preset:coulombP3", "preset:szsz", "preset:ss", "preset:hop7", "preset:hop3", "preset:t_spinflip",
